@@ -13,27 +13,27 @@ ID = "C13"
 RULE = (
     "Part 'forms' (shards = annotation x input form): 7 annotations in quick = GFF3 n=1,3,4,12, GTF n=3, a 4-line GFF3 text with "
     "inconsistent multi-value spelling, a 4-line GFF3 text whose third feature has '.' coordinates (thorough 10: also GTF n=5, GFF3 "
-    "n=25, GTF n=14) x 12 forms (path, .gz, from_string, list of Features, instrumented one-shot generator, DataIterator with the "
+    "n=25, GTF n=14) x 13 forms (path, .gz, from_string, list of Features, instrumented one-shot generator, DataIterator with the "
     "transform on the iterator or on create_db, FeatureDB, path / .gz / string with CRLF line ends, a plain-text path whose name "
-    "contains '.gz') x checklines 0..n+2 x transform (none, modify, drop-odd: every second feature is skipped by answering None, False, "
-    "0 or '' in turn). Checked: iteration and import must not raise; iterated sequence equals the expectation; transform called exactly "
-    "once per feature in order; generator items pulled exactly once in order; two live iterators of the same form over different "
-    "annotations do not interfere; create_db from the form gives the same features+relations and stored dialect as create_db from a "
-    "plain path, whose lines equal the expectation. For the inconsistent text only transform none is run and the iterated sequence is "
-    "compared with the path form. Part 'inspect' (annotation x {path, list, generator, DataIterator with a counting transform}; not the "
-    "inconsistent text): all 16 look_for subsets x limit None, 1..n+1; inspect() equals a Counter reference and iterates no more "
-    "features than it reports. Non-trivial = checklines < n or a transform is given or the form is not a plain path (forms); look_for "
-    "non-empty and limit None or <= n (inspect). Part 'update' (annotations GFF3 n=4 / n=12 and GTF n=3 x forms path, gzip, string, "
-    "list, one-shot generator x checklines {0,1,10} x transform): the same input goes through FeatureDB.update() on an existing file "
-    "database; after reopening, earlier features are unchanged, new ones equal the expectation in order, transform and pull logs are "
-    "exact; all non-trivial."
+    "contains '.gz', a plain path with bare CR line ends) x checklines 0..n+2 x transform (none, modify, drop-odd: every second feature "
+    "is skipped by answering None, False, 0 or '' in turn). Iteration and import must not raise; iterated sequence equals the "
+    "expectation; transform called exactly once per feature in order; generator items pulled exactly once in order; two live iterators "
+    "of the same form over different annotations do not interfere; create_db from the form gives the same features+relations and stored "
+    "dialect as create_db from a plain path, whose lines equal the expectation. For the inconsistent text only transform none is run "
+    "and the iterated sequence is compared with the path form. Part 'inspect' (annotation x {path, list, generator, DataIterator with a "
+    "counting transform}; not the inconsistent text; plus a 3-line GFF3 annotation without any attribute as path and list): all 16 "
+    "look_for subsets x limit None, 1..n+1; inspect() equals a Counter reference and iterates no more features than it reports. "
+    "Non-trivial = checklines < n or a transform is given or the form is not a plain path (forms); look_for non-empty and limit None or "
+    "<= n (inspect). Part 'update' (annotations GFF3 n=4 / n=12 and GTF n=3 x forms path, gzip, string, list, one-shot generator x "
+    "checklines {0,1,10} x transform): the same input goes through FeatureDB.update() on an existing file database; after reopening, "
+    "earlier features are unchanged, new ones equal the expectation in order, transform and pull logs are exact; all non-trivial."
 )
 ASSUMPTIONS = [
-    "annotations are consistent files whose lines all carry the same keys (so every form infers the same dialect); the one exception, "
-    "'gff3mixed' (repeated key vs comma list), is judged only differentially against the path form, never against the grammar's expectation",
+    "annotations are consistent files whose lines all carry the same keys (so every form infers the same dialect); the one exception, 'gff3mixed' (repeated key vs comma list), is judged only differentially against the path form, never against the grammar's expectation",
     "for the FeatureDB form of the GTF annotation the source database is built with inference disabled (it then holds exactly the file's lines)",
     "a transform mutating list-of-Feature inputs in place is the caller's business: inputs are rebuilt for every run",
     "any false value returned by a transform (None, False, 0, '') means 'skip this feature'",
+    "a bare CR ends a line of a plain file (universal newlines); an annotation without attributes gives an empty attribute_keys count in inspect()",
 ]
 
 FORMS = ("path", "gz", "string", "list", "generator", "DataIterator", "DataIterator+kw", "FeatureDB", "path_crlf", "gz_crlf", "string_crlf", "path_oddname",
